@@ -137,6 +137,7 @@ def run(rep, tier):
         plan.append(('direct restart requests, P in 2..3, <=4 requests', [cfg(P=P, adaptive=None, restart_script=True, restarting={'max_restarts': m, 'restart_from_first_step': ff, 'crash_after_max_restarts': cr}) for P in (2, 3) for m in (0, 1, 2) for ff in (False, True) for cr in (True, False)], 4))
         plan.append(('estimates + direct requests together, P=3, <=3 deviations', [cfg(P=3, restart_script=True, est_n=4, restarting={'max_restarts': m}) for m in (1, 2)], 3))
     plan.append(('restart flag raised in any convergence check (possibly while predecessors still iterate), K=2, <=2 requests', [cfg(P=P, K=2, jac=jac, nblocks=2, adaptive=None, restart_script=True, restart_early=True, restarting={'max_restarts': m, 'restart_from_first_step': ff}) for P in ((2, 3) if tier == 'quick' else (2, 3, 4)) for jac in (False, True) for m in (1, 2) for ff in (False, True)], 2 if tier == 'quick' else 3))
+    plan.append(('direct restart requests from a detector BEHIND BasicRestarting in the control order (flags are not passed on to the later steps), P in 2..4, <=2 requests', [cfg(P=P, jac=jac, adaptive=None, restart_script=True, restart_late=True, restarting={'max_restarts': 10, 'restart_from_first_step': False}) for P in (2, 3, 4) for jac in (False, True)], 2))
     # (restart_from_first_step is left out here: with residual-driven convergence the steps of a block finish in different
     # iterations, and the library then keeps the steps that finished before the rejected one - which is what the statement
     # promises for "the steps before it")
